@@ -18,6 +18,7 @@ go build ./... >>$out 2>&1 && echo "build: ok" >> $out || echo "build: FAILED" >
 if go test -vet=off -count=1 ./... >>$out.tests 2>&1; then echo "existing tests with change: all ok" >> $out; else echo "existing tests with change: FAILED" >> $out; fi
 dest=$(head -3 $seed/demo_test.go | grep -oE '(internal|pkg|cmd)/[A-Za-z0-9_/]+' | head -1)
 dest=${dest%/}
+if [ ! -d "$wt/$dest" ]; then dest=$(dirname $dest); fi
 cp $seed/demo_test.go $wt/$dest/zz_seed_demo_test.go
 if go test -vet=off -count=1 ./$dest/ >>$out.demo1 2>&1; then echo "demo with change: PASSES (unexpected)" >> $out; else echo "demo with change: fails (expected)" >> $out; fi
 git apply -R $seed/patch.diff
